@@ -33,7 +33,9 @@ def main(argv):
     if individual_parts:
         combined_parts.version = util.only({p.version for p in individual_parts})
         combined_parts.reuse_tolerance = util.only(
-            {p.reuse_tolerance for p in individual_parts}
+            {p.reuse_tolerance for p in individual_parts},
+            # only() drops falsy values by default; a tolerance of 0 is a value
+            filter_fn=lambda _: True,
         )
         combined_parts.view_box = util.only({p.view_box for p in individual_parts})
 
